@@ -6,7 +6,7 @@ from ..astx import (calls_in, dotted, norm, src, iter_nodes, assigned_targets, a
 from ..lib import (call_arg, relation, truth, other, cmp_views, core, holds_region, conditions, found_test, found_tests, path_tests, entails_empty, paths_entail_empty, eval_conditions, relation_tests, atom_key, expand_condition, mode_mismatch_conditions, is_bytes_mode_text_guard, cfg_nodes_with_call, node_calls, returns, raises, raised_class, stmt_assigns_attr, callee_last,
                    is_name, node_roots, guard_region, compare_parts, find_test_nodes)
 from ..lib import *      # noqa: F401,F403  (path-condition helpers)
-from ..linear import ctext
+from ..linear import ctext, clone
 from ..loader import AnalysisError
 
 EXPLANATION = (
@@ -161,7 +161,7 @@ def run_dispatch(f, body, pv, res, kind):
                     return env[n.id]
                 return n
         import copy as _copy
-        return T().visit(_copy.deepcopy(e))
+        return T().visit(clone(e))
 
     def ev(t):
         """True / False / None (unknown)"""
